@@ -23,7 +23,7 @@ MANIFEST = {
 }
 
 THEOREMS = ["C18_url_roundtrip", "C18_url_alphabet", "C18_url_no_comment_end", "C18_import_placeholder",
-            "C18_import_media_wrapper", "C18_import_passthrough", "C18_import_position_warning",
+            "C18_import_media_wrapper", "C18_import_passthrough", "C18_import_passthrough_layer", "C18_import_position_warning",
             "C18_import_placeholder_url", "C18_import_placeholder_url_fn", "C18_import_any_target",
             "C18_import_braces_balanced_refuted", "C18_import_bare_layer_wrapper", "C18_import_layer_wrapper",
             "C18_import_start_survives", "C18_import_start_lost"]
